@@ -710,3 +710,33 @@ func poolDerived(p *Prog, v ssa.Value, depth int, seen map[ssa.Value]bool) strin
 	}
 	return ""
 }
+
+// LOGCTX (C05): no decode writes into a logger's context.
+//
+// Every decoder holds a by-value copy of one logger (exif2.Logger, the package loggers). zerolog.Logger copies
+// share the backing array of their context, and (*Logger).UpdateContext appends to it in place: two decodes that
+// "add a field to their own logger" write the same bytes - a data race, and log lines of one decode carrying the
+// other's fields. Obligation: no library function calls UpdateContext (a per-decode logger is made with
+// With()...Logger(), which copies).
+func ruleLogCtx(p *Prog, r *Report) {
+	r.Explain("LOGCTX: no library function calls (*zerolog.Logger).UpdateContext: logger values are copied by value into every decoder and the copies share the context's backing array, which UpdateContext appends to in place.")
+	n, bad := 0, ""
+	for _, f := range p.AllLibFns() {
+		eachCall(f, func(site ssa.CallInstruction) {
+			sc := site.Common().StaticCallee()
+			if sc == nil || sc.Pkg == nil || sc.Pkg.Pkg.Path() != "github.com/rs/zerolog" {
+				return
+			}
+			n++
+			if sc.Name() == "UpdateContext" && bad == "" {
+				bad = fmt.Sprintf("%s calls UpdateContext at %s: the logger is a by-value copy whose context array is shared with every other decoder's copy, so concurrent decodes write the same bytes", fnName(f), p.posStr(instrPos(site)))
+			}
+		})
+	}
+	key := "library | no in-place update of a shared logger context"
+	if bad != "" {
+		r.Bad("LOGCTX", key, "-", bad)
+	} else {
+		r.OK("LOGCTX", key, "-", fmt.Sprintf("%d zerolog calls scanned, none is UpdateContext", n))
+	}
+}
